@@ -6,7 +6,7 @@ is compared with the compiler's tables of names it accepts after `import cython`
 import ast
 
 from ..core import Rule, AnalysisError
-from ..rules import pC38
+from ..rules import pC38, sC38
 
 ID = 'C38'
 TECHNIQUE = ('table agreement between the compiler\'s name tables (Options.directive_types/_directive_defaults/directive_scopes, '
@@ -345,4 +345,5 @@ def run(ctx):
     pc = ast.parse("class X:\n    def visit_NameNode(self, node):\n        if node.as_cython_attribute() == 'compiled':\n            return ExprNodes.BoolNode(node.pos, value=False)\n        return node\n").body[0]
     r.positive_control(_compiled_rewrites(pc) == [('visit_NameNode', 4, False)], 'compiled rewritten to False')
     rules.append(r)
+    rules += [sC38.rule_exact(ctx), sC38.rule_exc(ctx)]
     return rules
